@@ -158,10 +158,15 @@ def with_modes(case, modes):
     return case
 
 def fault_random(rng):
-    c = G.rand_case(rng, G.FIXED, maxq=rng.randint(1, 4), max_pkts=14, max_len=130, panic_p=0.7, flv_p=0.2)
+    # the final state is what is observed: without a closer (and mostly without stoppers) nothing else takes a
+    # consumer out of the map that its own clean-up left there
+    c = G.rand_case(rng, G.FIXED, maxq=rng.randint(1, 4), max_pkts=14, max_len=130, panic_p=0.7, flv_p=0.2,
+                    with_close=rng.random() < 0.3)
+    if rng.random() < 0.6:
+        c[5] = [False] * c[1]
     return with_modes(c, [rng.choice([RETURNS, PANICS, PANICS, BLOCKS, BLOCKS]) for _ in range(c[1])])
 
-def fault_script(rng, flv):
+def fault_script(rng, flv, teardown=False):
     """consumer 0 is healthy; 1 and 2 panic in Consume and then in / inside Close; the publisher goes on, a late
     stopper and the closer find them gone"""
     n, npk = 3, rng.randint(5, 9)
@@ -175,10 +180,12 @@ def fault_script(rng, flv):
         sched += [[G.PUB, 0]] * 3
         for c in range(n):
             sched += [[G.CONS, c]] * rng.choice([2, 3])
-    sched += [[G.STOP, 1]] * 2 + [[G.CLOSE, 0]] * 3
+    if teardown:
+        sched += [[G.STOP, 1]] * 2 + [[G.CLOSE, 0]] * 3
     for c in range(n):
         sched += [[G.CONS, c]] * 3
-    return with_modes([G.FIXED, n, rng.randint(2, 4), rng.random() < 0.5, pkts, [0, 1, 0], sched, panic, flv, 1, False, False], modes)
+    return with_modes([G.FIXED, n, rng.randint(2, 4), rng.random() < 0.5, pkts, [0, 1 if teardown else 0, 0], sched, panic, flv, 1,
+                       False, False], modes)
 
 def run(ck):
     if not ck.prepare():
@@ -221,7 +228,8 @@ def run(ck):
     ck.stream("rtp-to-flv-chain", chains, "C04_chain", "C04_lts", "C04_chain_ok",
               nontrivial=lambda c: True, sig=lambda c, e, o: "chain", timeout=900)
     # Consume panics and Close returns / panics / never returns
-    faults = [fault_script(rng, flv) for flv in ((False, False, True) if not ck.thorough else (False, True) * 20)]
+    faults = [fault_script(rng, flv, td) for flv, td in
+              (((False, False), (True, False), (False, True)) if not ck.thorough else ((False, False), (True, False), (False, True)) * 14)]
     faults += [fault_random(rng) for _ in range(10 if not ck.thorough else 300)]
     ck.stream("consume-and-close-faults", faults, "C04_faults", "C04_lts", "C04_faults_ok",
               nontrivial=lambda c: any(c[7]), sig=lambda c, e, o: "faults", timeout=900)
